@@ -95,6 +95,17 @@ Theorem validator_dot_1d_spec :
 Proof. exact validator_dot_1d_spec_proof. Qed.
 Print Assumptions validator_dot_1d_spec.
 
+(* moveaxis.  The order of its validation statements is extracted from the source (site_moveaxis_steps):
+   both arguments are normalised BEFORE the repeat test, so the decision coincides with numpy.moveaxis also
+   for tuples that repeat an axis through sign aliasing (d and d - ndim). *)
+Theorem validator_moveaxis_spec :
+  forall (src dst : list Z) (ndim : Z),
+    (np_moveaxis_ok src dst ndim = true ->
+       v_moveaxis src dst ndim = Ok (map (fun a => np_axis_norm a ndim) src, map (fun a => np_axis_norm a ndim) dst)) /\
+    (np_moveaxis_ok src dst ndim = false -> v_moveaxis src dst ndim = Raise ValueError).
+Proof. exact validator_moveaxis_spec_proof. Qed.
+Print Assumptions validator_moveaxis_spec.
+
 (* matmul rejects 0-d operands like numpy.matmul (9e6cc99), before it delegates to dot *)
 Theorem validator_matmul_0d_spec :
   forall nda ndb : Z,
